@@ -10,7 +10,8 @@ def setup():
     """Offline setup: parse every specification module, byte-compile nothing
     (nothing to build or fetch)."""
     with core.Work('setup') as w:
-        mods = sorted(f[:-4] for f in os.listdir(core.SPEC) if f.endswith('.tla'))
+        # Apa_* modules extend Apalache.tla, which is on apalache-mc's path only; Apalache parses them in the check
+        mods = sorted(f[:-4] for f in os.listdir(core.SPEC) if f.endswith('.tla') and not f.startswith('Apa_'))
         bad = 0
         for m in mods:
             try:
